@@ -108,14 +108,17 @@ theorem powSlow_add (b : UInt64) (m n : Nat) : powSlow b (m + n) = powSlow b m *
 theorem powSlow_sq (b : UInt64) (n : Nat) : powSlow (b * b) n = powSlow b (2 * n) := by
   rw [powSlow_mul, Nat.two_mul, powSlow_add]
 
-theorem powFast_eq (b : UInt64) (n : Nat) : powFast b n = powSlow b n := by
-  induction n using Nat.strongRecOn generalizing b with
-  | _ n ih =>
-    unfold powFast
+theorem powAux_eq (fuel : Nat) (b : UInt64) (n : Nat) (h : n ≤ fuel) : powAux fuel b n = powSlow b n := by
+  induction fuel generalizing b n with
+  | zero =>
+    have : n = 0 := by omega
+    subst this; rfl
+  | succ fuel ih =>
+    unfold powAux
     by_cases h0 : n = 0
     · simp [h0, powSlow]
     · simp only [h0, ↓reduceIte]
-      rw [ih (n / 2) (by omega), powSlow_sq]
+      rw [ih (b * b) (n / 2) (by omega), powSlow_sq]
       by_cases h1 : n % 2 = 1
       · simp only [h1, ↓reduceIte]
         have : n = 2 * (n / 2) + 1 := by omega
@@ -123,6 +126,9 @@ theorem powFast_eq (b : UInt64) (n : Nat) : powFast b n = powSlow b n := by
       · simp only [h1, ↓reduceIte]
         have : n = 2 * (n / 2) := by omega
         conv => rhs; rw [this]
+
+theorem powFast_eq (b : UInt64) (n : Nat) : powFast b n = powSlow b n :=
+  powAux_eq n b n (Nat.le_refl n)
 
 theorem fnvStep_zero (h : UInt64) : fnvStep h 0 = h * fnvPrime := by
   simp [fnvStep]
